@@ -29,8 +29,13 @@ package text
 //@   callsite Transform(m) requires form_matrix_inside_the_saved_state: len(e.gs.stack) == old(len(e.gs.stack)) + 1
 //@   decreases e.maxXObjectDepth - e.xobjectDepth, 0
 //@   ensures depth_restored: e.xobjectDepth == old(e.xobjectDepth) && e.maxXObjectDepth == old(e.maxXObjectDepth)
+// total work: the nesting limit alone allows k^depth invocations; the invocation counter only grows and a form is
+// entered only below the budget, so one Extract enters at most maxXObjectInvocations forms
+//@   ensures invocation_budget: e.xobjectInvoked >= old(e.xobjectInvoked) && (old(e.xobjectInvoked) <= maxXObjectInvocations ==> e.xobjectInvoked <= maxXObjectInvocations)
+//@   callsite Save() requires form_entered_below_the_budget: e.xobjectInvoked <= maxXObjectInvocations
 //@   loop 0:
 //@     invariant e.xobjectDepth == entry(e.xobjectDepth) && e.maxXObjectDepth == entry(e.maxXObjectDepth)
+//@     invariant e.xobjectInvoked >= entry(e.xobjectInvoked) && (entry(e.xobjectInvoked) <= maxXObjectInvocations ==> e.xobjectInvoked <= maxXObjectInvocations)
 
 // the six operands of cm / Tm in order a b c d e f
 //@ func operandsToMatrix results (m)
@@ -46,6 +51,7 @@ package text
 //@   property C02, C08
 //@   flags nosafety
 //@   decreases e.maxXObjectDepth - e.xobjectDepth, 1
+//@   ensures invocation_budget: e.xobjectInvoked >= old(e.xobjectInvoked) && (old(e.xobjectInvoked) <= maxXObjectInvocations ==> e.xobjectInvoked <= maxXObjectInvocations)
 //@   count nl: NextLine() when true
 //@   callsite Save() requires op.Operator == "q"
 //@   callsite Restore() requires op.Operator == "Q"
